@@ -18,9 +18,9 @@ EVENTIDS = [0x040c0004, 0x040d0004, 0x03010090, 0x07010004, 0x01400000, 0xff0000
 SYMS = [(t, e) for t in TIDS for e in EVENTIDS]
 CLASSES = [1, 3, 4, 7, 0xff]
 SUBCLASSES = [0x40c, 0x40d, 0x301, 0x140]
-STR = {'msg': 1, 'A': 2, 'B': 3, 'AB': 4, '10': 5}    # one process name contains another; so does one pid's decimal form (100 / 10)
+STR = {'msg': 1, 'A': 2, 'B': 3, 'AB': 4, '10': 5, 'com.apple.WebKit.Networking': 6}    # one process name contains another; so does one pid's decimal form (100 / 10)
 LOGS = [  # (tid, pid, process-name index or None)
-    (1, 10, 2), (2, 20, 3), (1, 100, 4), (0, 10, None), (2, 31, 5), ((1 << 32) + 1, 10, 2),     # index 4: a process NAMED '10' whose pid is 31
+    (1, 10, 2), (2, 20, 3), (1, 100, 4), (0, 10, None), (2, 31, 5), ((1 << 32) + 1, 10, 6),     # index 4: a process NAMED '10' whose pid is 31; index 5: a 27-character name
 ]
 
 
@@ -44,7 +44,7 @@ def subclass_lists():
 
 
 TID_FILTERS = [None, 0, 1, 2, 9, BIG]
-PROC_FILTERS = [None, 'A', '10', 'zzz', '20', '010']     # '010' is nobody's name and nobody's pid text
+PROC_FILTERS = [None, 'A', '10', 'zzz', '20', '010', 'com.apple.WebKit']     # '010' is nobody's name and nobody's pid text
 
 
 def raw_log(i, tid, pid, name):
@@ -267,7 +267,7 @@ class C12(Check):
             blob, recs = container('v3', (0, 9), logs)
             rev = {v: k for k, v in STR.items()}
             for T in (None, 1, 2, BIG):
-                for P in (None, 'A', '10', 'zzz', '010', '31'):
+                for P in (None, 'A', '10', 'zzz', '010', '31', 'com.apple.WebKit', 'com.apple.WebKit.Networking'):
                     args = ['logs'] + (['--tid', str(T)] if T is not None else []) + (['--process', P] if P is not None else [])
                     code, lines, exc = run_cli(blob, args)
                     el = []
@@ -286,11 +286,12 @@ class C12(Check):
         entry above 0xff must not match through the other field; (b) growing ONE object's filter list in place must not
         change another object's listing."""
         # ... (c) subclass entries of DIFFERENT classes must not be crossed (class of one with the low byte of the other)
-        ids = [0x00040004, 0x04000004, 0x040c0004, 0x00000004, 0x0c040004, 0x04040404, 0x01090004, 0x04090004, 0x010c0004, 0x03010004, 0x030c0004, 0x04010004]
+        ids = [0x00040004, 0x04000004, 0x040c0004, 0x00000004, 0x0c040004, 0x04040404, 0x01090004, 0x04090004, 0x010c0004, 0x03010004, 0x030c0004, 0x04010004,
+               0x04ff0004, 0x0400fffc, 0x01ff0004, 0xffff0004, 0x04fffffc]      # the last subclass of a class (0x..ff), the last code
         recs = [B.rec(100 + i, (i, 0, 0, 0), 1, e) for i, e in enumerate(ids)]
         blob = B.v2([(1, 10, 'A')], 0, recs)
-        for C in ([], [4], [0], [0x40c], [0x404], [4, 0x40c]):
-            for S in ([], [4], [0x400], [0x40c], [0], [0x404], [0x40c, 0x109], [0x109, 0x40c], [0x301, 0x40c], [0x40c, 0x40c, 0x301], [0x401, 0x30c]):
+        for C in ([], [4], [0], [0x40c], [0x404], [4, 0x40c], [0xff], [1, 4]):
+            for S in ([], [4], [0x400], [0x40c], [0], [0x404], [0x40c, 0x109], [0x109, 0x40c], [0x301, 0x40c], [0x40c, 0x40c, 0x301], [0x401, 0x30c], [0x4ff], [0xffff, 0x1ff]):
                 got = [obs_event(e) for e in run_facade(blob, None, C, S, None, 'kevents')]
                 exp = [ref_decode(r) for r in recs if not (C or S) or (ref_decode(r)[5] >> 24) in C or (ref_decode(r)[5] >> 16) in S]
                 acc.case(nontrivial=bool(C or S), transitions=1, state=h64(('collide', tuple(C), tuple(S))))
